@@ -10,7 +10,7 @@ from . import common
 
 ID = 'C12'
 LEVEL = 'exploration'
-RUNS = {'quick': 12000, 'thorough': 400000}
+RUNS = {'quick': 9000, 'thorough': 400000}
 WALL_CAP = {'quick': 150, 'thorough': 3000}
 
 SIZES = [0, 1, 5, 15, 16, 17, 63, 64, 65, 255, 256, 257, 900, 3000]
@@ -101,6 +101,16 @@ def scenario_for(seed, index, tier, _random_only=False):
         threads.append(ops)
     disc = {'by': rng.choice(['coord', 'coord'] + list(range(nthreads))),
             'immediate': rng.random() < 0.3}
+    big = False
+    if rng.random() < 0.06:
+        # a burst of queued packets that crosses the 300-packet write batch,
+        # followed at once by the same thread's non-immediate disconnect
+        n = rng.choice([301, 320, 650])
+        burst = [['q', tag + i, rng.choice([0, 0, 3])] for i in range(n)]
+        tag += n
+        threads[0] = threads[0][:1] + burst
+        disc = {'by': 0, 'immediate': False}
+        big = True
     ka = [rng.choice([0, 1, 127, 128, 2**31 - 1, rng.randrange(2**31)])
           for _ in range(rng.choice([0, 0, 1, 3]))]
     login = []
@@ -124,7 +134,8 @@ def scenario_for(seed, index, tier, _random_only=False):
         'threads': threads, 'disc': disc,
         'server': {'conns': [{'login': login, 'play': play}]},
         'net': {'latency_us': rng.choice([50, 200, 2000])},
-        'sched': {'granularity': gran, 'max_steps': 400000},
+        'sched': {'granularity': 'line' if big else gran,
+                  'max_steps': 3000000 if big else 400000},
         'rand_seed': rng.randrange(2**32),
     }
 
